@@ -14,7 +14,7 @@ import json, os, shutil, subprocess, sys, tempfile
 
 d = os.path.abspath(sys.argv[1])
 meta = json.load(open(os.path.join(d, "meta.json")))
-env = dict(os.environ, GOFLAGS="-mod=mod", GOPROXY="off", GOSUMDB="off", GOTOOLCHAIN="local")
+env = dict(os.environ, GOFLAGS="-mod=mod -trimpath", GOPROXY="off", GOSUMDB="off", GOTOOLCHAIN="local")
 env.pop("VERIF_REPO", None)
 wt = tempfile.mkdtemp(prefix="seedverify-", dir="/tmp")
 os.rmdir(wt)
